@@ -61,6 +61,53 @@ def store_owners(prog, st):
     return sorted(out)
 
 
+def stores_after_proof(ctx, rule, prog):
+    """In _LanProtocolV3.authenticate every store to the session key / its expiry is dominated by the completed proof check
+    (the call that verifies the handshake reply - _get_local_key, or the helpers a refactoring split it into).  A store that
+    precedes it survives a failing proof, because the verifier's raise leaves authenticate with the store already done."""
+    from ..absint import EventAnalysis, run_events
+    pa = ctx.fn(f"{V3}.authenticate")
+    gk = prog.funcs.get(f"{V3}._get_local_key")
+
+    def verifies(call_node, fn_):
+        from ..helpers import resolve_call, with_helpers
+        t = resolve_call(prog, fn_, call_node)
+        if t is None:
+            return False
+        if gk is not None and t.qual == gk.qual:
+            return True
+        # an unknown helper that performs the digest comparison and raises on mismatch
+        if not prog.is_known(t.qual):
+            return any(isinstance(n, ast.Compare) and any(isinstance(c, ast.Call) and isinstance(c.func, ast.Attribute) and c.func.attr in ("digest", "compare_digest")
+                                                          for c in ast.walk(n)) for f2 in with_helpers(prog, t) for n in ast.walk(f2.node)) or \
+                any(isinstance(c, ast.Call) and isinstance(c.func, ast.Attribute) and c.func.attr == "compare_digest" for f2 in with_helpers(prog, t) for c in ast.walk(f2.node))
+        return False
+
+    def on_stmt(node, st):
+        if isinstance(node, (ast.FunctionDef, ast.AsyncFunctionDef)):
+            return []
+        return ["proved"] if any(isinstance(c, ast.Call) and verifies(c, pa) for c in ast.walk(node)) else []
+    ea = EventAnalysis(must=True, on_stmt=on_stmt)
+    ea.inline_unknown = False
+    run_events(prog, pa, ea)
+    n = 0
+    for node, st in ea.at.items():
+        if not isinstance(node, (ast.Assign, ast.AugAssign, ast.AnnAssign)):
+            continue
+        tg = node.targets if isinstance(node, ast.Assign) else [node.target]
+        for t in tg:
+            for x in ast.walk(t):
+                for attr in ("_local_key", "_local_key_expiration"):
+                    if is_self_attr(x, attr) and isinstance(x.ctx, ast.Store):
+                        n += 1
+                        # the statement that stores the verifier's own result counts as after it
+                        own = any(isinstance(c, ast.Call) and verifies(c, pa) for c in ast.walk(node))
+                        ctx.ob(rule, pa.qual, "proved" in st or own, f"self.{attr} is stored only after the handshake reply was verified", func=pa.qual, file=pa.module.rel,
+                               node=node, fail=f"self.{attr} is stored before the handshake reply is verified: a failing proof leaves the session state already changed "
+                                                f"(an expired or foreign session counts as authenticated again)")
+    return n
+
+
 def external_stores(prog, attr, owner_quals):
     """stores `<expr>.<attr> = ...` anywhere in the package outside the owner classes' methods"""
     out = []
@@ -163,6 +210,7 @@ def run(ctx):
                detail={"sites": [f.qual for f, _ in ext]}, fail=f"{attr} is written from outside the protocol: {[f.qual for f, _ in ext]}")
     ps = summarize(prog, pa)
     sp = pa.params[0]
+    ctx.count("stores_after_proof", stores_after_proof(ctx, "C06.b", prog))
     ok_paths = 0
     for pc, ret, node, rst in ps.returns:
         ok_paths += 1
